@@ -211,6 +211,26 @@ reg("C35", "exploration",
     "C and C++. No crash or sanitizer report; where no internal error is reported, the dump invariants hold and every linked use names clang's declaration.",
     "Import token positions are approximate, so judging is conservative. Internal errors are exempt as the statement says.")
 
+reg("C07", "exploration",
+    "bounded-exhaustive enumeration of expression trees with a minimal-parenthesis and a full-parenthesis printer, column-exact isomorphism of the dump's AST with the generating tree, printer refereed by clang's AST",
+    "All trees with <=2 operator nodes over the full operator alphabet (quick; thorough adds all trees with 3 nodes over precedence-class "
+    "representatives, 72,441 trees) x {C, C++} x {expression statement, return operand} x {minimal, full parentheses} are dumped by the real binary; "
+    "every operator token must have exactly the generating tree's operands, the same in both printings; minimal printings are confirmed by clang's own AST.",
+    "Small-scope (n<=3); cppcheck's representation conventions and two value-preserving tokenizer normal forms are accepted; rejected expressions are "
+    "counted; 18 known defect classes; the thorough tier is exhaustive only if it finishes in its budget.")
+reg("C09", "exploration",
+    "exhaustive enumeration of typed expressions, differential against compilers via batch static assertions per target",
+    "All (T1 op T2) over 18 types x 30 binary operators, ?:, unary, ++/--, sizeof, casts, subscripts and suffixed literals x {C, C++} x 5 platforms "
+    "(quick; 11 thorough): the valueType of the root token must be the type gcc / gcc -m32 / clang --target gives, judged by one compiler run per 2000 expressions.",
+    "Judges base type, sign and pointer depth only; plain-char sign, enum, char16_t/char32_t judged through underlying types; compiler-rejected "
+    "expressions and untyped tokens are counted; XML platforms only where a clang target has identical sizes; 11 known rule-level classes.")
+reg("C10", "exploration",
+    "exhaustive enumeration of literal spellings and constant expressions, differential against compilers per target including generated platform XML files",
+    "Every literal spelling of the list (21 values x 5 bases x 14 suffixes x separators; character literals x prefixes; multi-character; floating "
+    "forms) and every sizeof, cast and constant expression x {C, C++} x 7 platforms (quick; 16 thorough, 5 of them platform files generated from clang "
+    "targets): the Known value on the root token must satisfy a sign-and-magnitude static assertion for that target.",
+    "Floating values decidable only to 1e-11 relative (12 printed digits), judged by g++; UB expressions screened out; tokens without a Known value are counted; 12 known classes.")
+
 ALL = ["C%02d" % i for i in range(1, 37)]
 
 
